@@ -116,7 +116,7 @@ type Vaxis struct {
 	charCache        map[string]int
 	cursorNext       cursorState
 	cursorLast       cursorState
-	closed           bool
+	closed           int32
 	refresh          bool
 	kittyFlags       int
 	disableMouse     bool
@@ -416,11 +416,12 @@ func (vx *Vaxis) Events() chan Event {
 // Close shuts down the event loops and returns the terminal to it's original
 // state
 func (vx *Vaxis) Close() {
-	if vx.closed {
+	// Close can be called by the application and, on a signal, by the
+	// input goroutine at the same time: only the first call tears down
+	if !atomic.CompareAndSwapInt32(&vx.closed, 0, 1) {
 		return
 	}
 	vx.PostEvent(QuitEvent{})
-	vx.closed = true
 
 	defer close(vx.chQuit)
 
